@@ -36,28 +36,49 @@ theorem noDcolon_push (st : St) (k : TK) (n : Nat) (hk : k ≠ .dcolon) : NoDcol
   simp only [St.push, List.cons.injEq] at e
   rw [← e.1]; exact hk
 
-theorem nameTail_top {st st' : St} {n : Nat} {b : Bool} (h : nameTail st n b = .ok st') : NoDcolonTop st'.acc := by
+/-- shape of a successful `nameTail`: one NameTest of `m ≥ n` bytes -/
+theorem nameTail_shape {st st' : St} {n : Nat} {b : Bool} (h : nameTail st n b = .ok st') :
+    ∃ m f1 f2, n ≤ m ∧ st' = { acc := ⟨.nametest, st.pos, st.rest.take m⟩ :: st.acc, ntype := f1, func := f2,
+                               pos := st.pos + m, rest := st.rest.drop m } := by
   unfold nameTail at h
   split at h
   · split at h
-    · cases h; exact noDcolon_push _ _ _ (by decide)
+    · cases h; exact ⟨n, _, _, Nat.le_refl _, rfl⟩
     · split at h
-      · cases h
-      · cases h; exact noDcolon_push _ _ _ (by decide)
-  · cases h; exact noDcolon_push _ _ _ (by decide)
+      · cases h; exact ⟨n + 2, _, _, by omega, rfl⟩
+      · split at h
+        · cases h
+        · next m _ => cases h; exact ⟨n + 1 + m, _, _, by omega, rfl⟩
+  · cases h; exact ⟨n, _, _, Nat.le_refl _, rfl⟩
 
-theorem lexName_top {st st' : St} (h : lexName st = .ok st') : NoDcolonTop st'.acc := by
+/-- shape of a successful `lexName`: a NameTest right away, or AxisName `::` NameTest -/
+theorem lexName_shape {st st' : St} (h : lexName st = .ok st') :
+    ∃ n, namePart st.rest = some n ∧
+      (nameTail st n false = .ok st' ∨
+       (startsWith (st.rest.drop (n + axisGap (st.rest.drop n))) [0x3a, 0x3a] = true ∧
+        ∃ n2, namePart (axisSt st n).rest = some n2 ∧ nameTail (axisSt st n) n2 true = .ok st')) := by
   unfold lexName at h
   split at h
   · cases h
-  · split at h
-    · split at h
-      · simp only at h
-        split at h
+  · next n hn =>
+    refine ⟨n, hn, ?_⟩
+    split at h
+    · next hsw =>
+      split at h
+      · split at h
         · cases h
-        · exact nameTail_top h
+        · next n2 hn2 => exact Or.inr ⟨hsw, n2, hn2, h⟩
       · cases h
-    · exact nameTail_top h
+    · exact Or.inl h
+
+theorem nameTail_top {st st' : St} {n : Nat} {b : Bool} (h : nameTail st n b = .ok st') : NoDcolonTop st'.acc := by
+  obtain ⟨m, f1, f2, _, rfl⟩ := nameTail_shape h
+  intro t r e
+  simp only [List.cons.injEq] at e
+  rw [← e.1]; simp
+
+theorem lexName_top {st st' : St} (h : lexName st = .ok st') : NoDcolonTop st'.acc := by
+  obtain ⟨n, _, h | ⟨_, n2, _, h⟩⟩ := lexName_shape h <;> exact nameTail_top h
 
 theorem lexOper_top {st st' : St} (h : lexOper st = .ok st') : NoDcolonTop st'.acc := by
   unfold lexOper at h
@@ -167,41 +188,28 @@ theorem Adv.trans {a b c : St} (h1 : Adv a b) (h2 : Adv b c) : Adv a c := by
 
 theorem nameTail_adv {st st' : St} {n : Nat} {b : Bool} (hn : n ≥ 1) (hr : st.rest ≠ []) (h : nameTail st n b = .ok st') :
     Adv st st' := by
-  unfold nameTail at h
-  split at h
-  · split at h
-    · cases h; exact adv_of_rest (n := n + 2) rfl (by omega) hr
-    · split at h
-      · cases h
-      · next m _ => cases h; exact adv_of_rest (n := n + 1 + m) rfl (by omega) hr
-  · cases h; exact adv_of_rest (n := n) rfl hn hr
+  obtain ⟨m, f1, f2, hm, rfl⟩ := nameTail_shape h
+  exact adv_of_rest (n := m) rfl (by omega) hr
+
+theorem skip_rest_le (st : St) (w : Nat) : (st.skip w).rest.length ≤ st.rest.length := by
+  simp [St.skip, List.length_drop]
+
+theorem afterDcolon_rest_le (st : St) : (afterDcolon st).rest.length ≤ st.rest.length := by
+  unfold afterDcolon; split
+  · exact skip_rest_le _ _
+  · exact Nat.le_refl _
+
+theorem axisSt_rest_le (st : St) (n : Nat) : (axisSt st n).rest.length ≤ st.rest.length := by
+  unfold axisSt
+  refine Nat.le_trans (afterDcolon_rest_le _) ?_
+  simp [St.push, St.skip, List.length_drop]
 
 theorem lexName_adv {st st' : St} (h : lexName st = .ok st') : Adv st st' := by
-  unfold lexName at h
-  split at h
-  · cases h
-  · next n hn =>
-    have hn1 := namePart_pos hn
-    have hne := namePart_nonempty hn
-    split at h
-    · split at h
-      · simp only at h
-        split at h
-        · cases h
-        · next n2 hn2 =>
-          have a1 : Adv st (st.push .axisname n) := adv_push _ _ _ hn1 hne
-          have hne2 := namePart_nonempty hn2
-          have a2 : Adv (st.push .axisname n) ((st.push .axisname n).push .dcolon 2) := by
-            simp only [Adv, St.push, List.length_drop]
-            have : ((st.rest.drop n).drop 2) ≠ [] := hne2
-            have hl : ((st.rest.drop n).drop 2).length ≥ 1 := by
-              cases hh : ((st.rest.drop n).drop 2) with
-              | nil => exact absurd hh this
-              | cons c r => simp
-            simp only [List.length_drop] at hl; omega
-          exact (a1.trans a2).trans (nameTail_adv (namePart_pos hn2) hne2 h)
-      · cases h
-    · exact nameTail_adv hn1 hne h
+  obtain ⟨n, hn, h | ⟨_, n2, hn2, h⟩⟩ := lexName_shape h
+  · exact nameTail_adv (namePart_pos hn) (namePart_nonempty hn) h
+  · have a2 := nameTail_adv (namePart_pos hn2) (namePart_nonempty hn2) h
+    have := axisSt_rest_le st n
+    simp only [Adv] at a2 ⊢; omega
 
 theorem lexOper_adv {st st' : St} (hr : st.rest ≠ []) (h : lexOper st = .ok st') : Adv st st' := by
   unfold lexOper at h
@@ -385,38 +393,33 @@ theorem reclassify_ne (st : St) (hi : TokNE st.acc) : TokNE (reclassify st).acc 
 
 theorem nameTail_ne {st st' : St} {n : Nat} {b : Bool} (hn : n ≥ 1) (hr : st.rest ≠ []) (hi : TokNE st.acc)
     (h : nameTail st n b = .ok st') : TokNE st'.acc := by
-  unfold nameTail at h
-  split at h
-  · split at h
-    · cases h; exact ne_of_acc (n := n + 2) rfl (by omega) hr hi
-    · split at h
-      · cases h
-      · next m _ => cases h; exact ne_of_acc (n := n + 1 + m) rfl (by omega) hr hi
-  · cases h; exact ne_of_acc (n := n) rfl hn hr hi
+  obtain ⟨m, f1, f2, hm, rfl⟩ := nameTail_shape h
+  exact ne_of_acc (n := m) rfl (by omega) hr hi
+
+theorem afterDcolon_acc (st : St) : (afterDcolon st).acc = st.acc := by
+  unfold afterDcolon; split <;> rfl
+
+theorem startsWith_ne {l p : Bytes} (h : startsWith l p = true) (hp : p ≠ []) : l ≠ [] := by
+  intro e; subst e
+  cases p with
+  | nil => exact hp rfl
+  | cons _ _ => simp [startsWith, List.isPrefixOf] at h
+
+theorem axisSt_ne {st : St} {n : Nat} (hn : n ≥ 1) (hr : st.rest ≠ [])
+    (hsw : startsWith (st.rest.drop (n + axisGap (st.rest.drop n))) [0x3a, 0x3a] = true) (hi : TokNE st.acc) :
+    TokNE (axisSt st n).acc := by
+  unfold axisSt
+  rw [afterDcolon_acc]
+  have h1 : TokNE (st.push .axisname n).acc := ne_of_acc (n := n) rfl hn hr hi
+  have hd := startsWith_ne hsw (by simp)
+  refine ne_of_acc (st := (st.push .axisname n).skip (axisGap (st.rest.drop n))) (n := 2) rfl (by omega) ?_ h1
+  simpa [St.skip, St.push, List.drop_drop, Nat.add_comm] using hd
 
 theorem lexName_ne {st st' : St} (hi : TokNE st.acc) (h : lexName st = .ok st') : TokNE st'.acc := by
-  unfold lexName at h
-  split at h
-  · cases h
-  · next n hn =>
-    have hn1 := namePart_pos hn
-    have hne := namePart_nonempty hn
-    split at h
-    · next hsw =>
-      split at h
-      · simp only at h
-        split at h
-        · cases h
-        · next n2 hn2 =>
-          have hne2 : ((st.rest.drop n).drop 2) ≠ [] := namePart_nonempty hn2
-          have hd : st.rest.drop n ≠ [] := by
-            intro e; rw [e] at hne2; simp at hne2
-          have i1 : TokNE (st.push .axisname n).acc := ne_of_acc (n := n) rfl hn1 hne hi
-          have i2 : TokNE ((st.push .axisname n).push .dcolon 2).acc :=
-            ne_of_acc (st := st.push .axisname n) (n := 2) rfl (by omega) hd i1
-          exact nameTail_ne (namePart_pos hn2) hne2 i2 h
-      · cases h
-    · exact nameTail_ne hn1 hne hi h
+  obtain ⟨n, hn, h | ⟨hsw, n2, hn2, h⟩⟩ := lexName_shape h
+  · exact nameTail_ne (namePart_pos hn) (namePart_nonempty hn) hi h
+  · exact nameTail_ne (namePart_pos hn2) (namePart_nonempty hn2)
+      (axisSt_ne (namePart_pos hn) (namePart_nonempty hn) hsw hi) h
 
 theorem lexOper_ne {st st' : St} (hr : st.rest ≠ []) (hi : TokNE st.acc) (h : lexOper st = .ok st') : TokNE st'.acc := by
   unfold lexOper at h
@@ -609,30 +612,34 @@ theorem reclassify_sl {s : Bytes} (st : St) (hi : Sl s st) : Sl s (reclassify st
   · exact ⟨h1, h2⟩
 
 theorem nameTail_sl {s : Bytes} {st st' : St} {n : Nat} {b : Bool} (hi : Sl s st) (h : nameTail st n b = .ok st') : Sl s st' := by
-  unfold nameTail at h
-  split at h
-  · split at h
-    · cases h; exact sl_of_push (n := n + 2) hi rfl rfl rfl
-    · split at h
-      · cases h
-      · next m _ => cases h; exact sl_of_push (n := n + 1 + m) hi rfl rfl rfl
-  · cases h; exact sl_of_push (n := n) hi rfl rfl rfl
+  obtain ⟨m, f1, f2, hm, rfl⟩ := nameTail_shape h
+  exact sl_of_push (n := m) hi rfl rfl rfl
+
+theorem sl_skip {s : Bytes} {st : St} (hi : Sl s st) (w : Nat) (hw : w ≤ wsLen st.rest) : Sl s (st.skip w) := by
+  obtain ⟨h1, h2⟩ := hi
+  refine ⟨by simp [St.skip, h1, List.drop_drop], ?_⟩
+  have hg : GapOK s st.pos (st.pos + w) :=
+    gap_of_rest h1 _ (fun j c hj hc => Or.inl (wsLen_spec _ j c (by omega) hc))
+  simpa [St.skip] using h2.mono hg (Nat.le_add_right _ _)
+
+theorem axisGap_le (r : Bytes) : axisGap r ≤ wsLen r := by
+  unfold axisGap; split <;> omega
+
+theorem afterDcolon_sl {s : Bytes} {st : St} (hi : Sl s st) : Sl s (afterDcolon st) := by
+  unfold afterDcolon; split
+  · exact sl_skip hi _ (Nat.le_refl _)
+  · exact hi
+
+theorem axisSt_sl {s : Bytes} {st : St} (n : Nat) (hi : Sl s st) : Sl s (axisSt st n) := by
+  unfold axisSt
+  have i1 : Sl s (st.push .axisname n) := sl_of_push (n := n) hi rfl rfl rfl
+  have i2 : Sl s ((st.push .axisname n).skip (axisGap (st.rest.drop n))) := sl_skip i1 _ (axisGap_le _)
+  exact afterDcolon_sl (sl_of_push (n := 2) i2 rfl rfl rfl)
 
 theorem lexName_sl {s : Bytes} {st st' : St} (hi : Sl s st) (h : lexName st = .ok st') : Sl s st' := by
-  unfold lexName at h
-  split at h
-  · cases h
-  · next n hn =>
-    split at h
-    · split at h
-      · simp only at h
-        split at h
-        · cases h
-        · have i1 : Sl s (st.push .axisname n) := sl_of_push (n := n) hi rfl rfl rfl
-          have i2 : Sl s ((st.push .axisname n).push .dcolon 2) := sl_of_push (n := 2) i1 rfl rfl rfl
-          exact nameTail_sl i2 h
-      · cases h
-    · exact nameTail_sl hi h
+  obtain ⟨n, hn, h | ⟨_, n2, hn2, h⟩⟩ := lexName_shape h
+  · exact nameTail_sl hi h
+  · exact nameTail_sl (axisSt_sl n hi) h
 
 theorem lexOper_sl {s : Bytes} {st st' : St} (hi : Sl s st) (h : lexOper st = .ok st') : Sl s st' := by
   unfold lexOper at h
